@@ -5,6 +5,7 @@ import (
 
 	"github.com/jsightapi/jsight-schema-core/errs"
 	"github.com/jsightapi/jsight-schema-core/notations/jschema/ischema"
+	"github.com/jsightapi/jsight-schema-core/notations/jschema/ischema/constraint"
 )
 
 // CheckRecursion checks that given schema doesn't have invalid recursions.
@@ -127,10 +128,16 @@ func (c *recursionChecker) check(node ischema.Node, types map[string]ischema.Typ
 
 	// We should check all fields in the object 'cause some of them can be required.
 	case *ischema.ObjectNode:
+		required := requiredKeysOf(node)
 		for i, n := range node.Children() {
 			// A key shortcut stands for any number of members, none included:
 			// what its value refers to is not required.
 			if node.Key(i).IsShortcut {
+				continue
+			}
+			// A member without a rule of its own is optional in a schema whose
+			// keys are optional by default: only the required keys are links.
+			if _, ok := required[node.Key(i).Key]; !ok {
 				continue
 			}
 			if err := c.check(n, types); err != nil {
@@ -143,6 +150,17 @@ func (c *recursionChecker) check(node ischema.Node, types map[string]ischema.Typ
 	}
 
 	return nil
+}
+
+// requiredKeysOf returns the keys the compiled object lists as required.
+func requiredKeysOf(node *ischema.ObjectNode) map[string]struct{} {
+	res := map[string]struct{}{}
+	if rk, ok := node.Constraint(constraint.RequiredKeysConstraintType).(*constraint.RequiredKeys); ok {
+		for _, k := range rk.Keys() {
+			res[k] = struct{}{}
+		}
+	}
+	return res
 }
 
 func (c *recursionChecker) checkMixedValueNode(
